@@ -11,7 +11,7 @@ SHARED = {
     "C16": [("C16.R10", "more", "rebuild_depends_on_the_built_flag_only", "the rebuild after a change depends on the built flag only"), ("C16.R7", "more", "recompiler_globals_are_unique", "globals planted for one function object carry its serial number")],
     "C03": [("C03.R9", "c10", "r3_strategy_laws", "the dependent dispatcher checks only what the call supplies and decides as prescribed")],
     "C01": [("C01.R11", "c04", "r1_store_key_is_lookup_key", "dispatchers / entries are filed under the key looked up"), ("C01.R10", "c10", "r3_strategy_laws", "a value-dependent method runs only when its own conditions hold"), ("C01.R8", "c03", "r3_early_exits", "early exits key and forward exactly what was supplied"), ("C01.R9", "c11", "r4_connective_is_quantifier", "emitted union checks are bracketed, connectives are quantifiers")],
-    "C04": [("C04.R12", "more", "value_check_memos_are_keyed_on_what_they_read", "memos in per-call value checks are keyed on everything they read"), ("C04.R11", "more", "resolution_functions_are_not_memoised", "resolution functions and key functions are not memoised process-wide"), ("C04.R9", "more", "tables_hold_rereadable_values", "tables never hold one-shot iterators"), ("C04.R10", "more", "per_position_lookup_ignores_cache", "a per-position lookup does not depend on cached entries of other classes"), ("C04.R8", "c19", "r4_whole_value_stores", "cache reads do not consume; fills store whole values")],
+    "C04": [("C04.R13", "more", "type_hooks_keep_no_state", "the type hooks of the package's own types store nothing on the type object"), ("C04.R12", "more", "value_check_memos_are_keyed_on_what_they_read", "memos in per-call value checks are keyed on everything they read"), ("C04.R11", "more", "resolution_functions_are_not_memoised", "resolution functions and key functions are not memoised process-wide"), ("C04.R9", "more", "tables_hold_rereadable_values", "tables never hold one-shot iterators"), ("C04.R10", "more", "per_position_lookup_ignores_cache", "a per-position lookup does not depend on cached entries of other classes"), ("C04.R8", "c19", "r4_whole_value_stores", "cache reads do not consume; fills store whole values")],
     "C06": [("C06.R9", "c01", "r2_arity_keyword_filter", "the applicability filter depends on arity and required keywords only"), ("C06.R6", "c07", "r3", "the continuation branch consults what resolving the bare key stored"), ("C06.R7", "c14", "r2", "one key function on every path"), ("C06.R8", "c05", "r2", "every change propagates to every dependent")],
     "C07": [("C07.R12", "more", "tables_hold_rereadable_values", "the applicable-code set can be read by every later call_next"), ("C07.R11", "c08", "r1_self_references_found", "recurse / call_next symbols are found in globals and closure cells")],
     "C09": [("C09.R12", "more", "recompiled_function_keeps_its_cells", "a re-compiled method keeps its free variables and cells, __class__ included (re-compiler executed abstractly)"), ("C09.R13", "more", "recompiled_function_keeps_the_rest", "a re-compiled method keeps globals, defaults, annotations and name; the names given to the rewriter are bound (re-compiler executed abstractly)"), ],
@@ -24,7 +24,7 @@ SHARED = {
     "C15": [("C15.R11", "more", "equality_tells_lookalikes_apart", "type equality tells look-alike constituents apart (interpreted)"), ("C15.R9", "more", "literal_bound_covers_every_value", "a Literal's bound covers the types of all its values (interpreted)"), ("C15.R7", "more", "annotations_pass_the_normaliser", "every annotation read passes the normaliser"), ("C15.R8", "c12", "r4_tables", "decision tables of the Order-valued code (union order is member-order free)")],
     "C18": [("C18.R9", "c19", "r4_whole_value_stores", "cache fills are whole-value stores (no half-written entry survives a failure)"), ("C18.R10", "c05", "r3_rebuild_from_nothing", "every build starts from a new table"), ("C18.R8", "more", "rebuild_is_the_mutators_last_effect", "a mutator has made all its changes before it starts the rebuild"), ("C18.R7", "more", "removal_is_exhaustive", "unregistering removes every signature of the function")],
     "C17": [("C17.R12", "more", "recompiled_function_keeps_its_cells", "a re-compiled method keeps its free variables and cells, __class__ included (re-compiler executed abstractly)"), ("C17.R10", "more", "internal_conversions_are_fresh", "the package converts plain functions to fresh function objects"), ("C17.R9", "more", "recompiler_globals_are_unique", "globals planted for one function object carry its serial number"), ("C17.R8", "more", "entry_point_replaced_only_on_unnamed_or_fresh", "the entry point is replaced only on unnamed or fresh function objects")],
-    "C19": [("C19.R10", "more", "no_shared_mutable_defaults_written", "mutable default arguments are never written"), ("C19.R11", "c19", "r11_resolution_completes_whatever_is_cached", "a resolution installs its whole chain whatever is already cached"), ("C19.R9", "c07", "r3", "the continuation branch resolves the bare key first and consults what it stored")],
+    "C19": [("C19.R12", "more", "type_hooks_keep_no_state", "the type hooks of the package's own types store nothing on the type object"), ("C19.R10", "more", "no_shared_mutable_defaults_written", "mutable default arguments are never written"), ("C19.R11", "c19", "r11_resolution_completes_whatever_is_cached", "a resolution installs its whole chain whatever is already cached"), ("C19.R9", "c07", "r3", "the continuation branch resolves the bare key first and consults what it stored")],
     "C05": [("C05.R6", "more", "rebuild_depends_on_the_built_flag_only", "the rebuild after a change depends on the built flag only"), ("C05.R5", "c18", "r4_flag_never_unset", "the built flag is not lowered while the generated entry point stays live")],
     "C20": [("C20.R11", "c05", "r2", "every change reaches every dependent (and only changes do)"), ("C20.R10", "c19", "r4_whole_value_stores", "the lookup path never discards or rewrites cached entries"), ("C20.R9", "c20", "r9_dependent_dispatcher_tests_values_only", "the dependent dispatcher does not re-test plain classes"), ("C20.R7", "c07", "r3", "the continuation branch reads the cached bare key"), ("C20.R8", "c07", "r5_next_keys_like_call_next", "next() keys like the entry point")],
 }
